@@ -922,9 +922,9 @@ def typed_rpc_roundtrip(env):
     for c in cases:
         if not c['ok']:
             fails.append(dict(scenario='typed_rpc_roundtrip', args=dict(case=c['case']), expected=dict(note='the handler\'s message, or its error status with code, message and headers intact; an undecodable payload is an error status'), observed=c['observed']))
-    if not fails and len(cases) != 8:
+    if not fails and len(cases) != 9:
         raise Undecided('typed_rpc_roundtrip scenario reported %d cases' % len(cases))
-    return dict(name='typed_rpc_roundtrip', validates='the codecs (bincode) and the whole typed path on real networks: 5 handler outcomes, 2 undecodable payloads, service afterwards', cases=len(cases), failed=fails, ok=not fails,
+    return dict(name='typed_rpc_roundtrip', validates='the codecs (bincode) and the whole typed path on real networks: 6 handler outcomes (one of them a relayed status that carries a status-message header of its own), 2 undecodable payloads, service afterwards', cases=len(cases), failed=fails, ok=not fails,
                 props=['C17'], clause='a typed call delivers the request message and returns either the handler\'s response message or the handler\'s error status with code, message and headers intact; undecodable payloads and non-success statuses surface as an error status, never as a panic or a wrong-typed success')
 
 
